@@ -9,6 +9,29 @@ REPO = os.environ.get('GEO_REPO', '/repo')
 WORK = os.path.join(VERIF, '.work')
 CRATE_DIR = {'geo-types': 'geo-types', 'geo': 'geo'}
 PLAYBACK_FILE = {'geo-types': 'geo_types.rs', 'geo': 'geo.rs'}
+# harness source files that are included from a hook INSIDE a module (private items): module path of the hook's
+# `mod verif`, and their own playback include file
+MODPATH = {
+    'geomgraph.rs': 'algorithm::relate::geomgraph::verif',
+    'c11_private.rs': 'algorithm::line_intersection::verif',
+    'c04_convert.rs': 'algorithm::bool_ops::i_overlay_integration::verif',
+    'c09_rdp.rs': 'algorithm::simplify::verif',
+    'c09_vw.rs': 'algorithm::simplify_vw::verif',
+    'c06.rs': 'algorithm::centroid::verif',
+    'c08.rs': 'algorithm::convex_hull::verif',
+    'c08_qhull.rs': 'algorithm::convex_hull::qhull::verif',
+}
+
+
+def modpath(srcfile):
+    return MODPATH.get(srcfile, 'verif')
+
+
+def playback_file(crate, srcfile):
+    if srcfile in MODPATH:
+        return 'pb_' + srcfile
+    return PLAYBACK_FILE[crate]
+
 
 
 def _env():
@@ -23,21 +46,21 @@ def _env():
 def ensure_playback_files():
     d = os.path.join(WORK, 'playback')
     os.makedirs(d, exist_ok=True)
-    for f in PLAYBACK_FILE.values():
+    for f in list(PLAYBACK_FILE.values()) + ['pb_' + k for k in MODPATH]:
         p = os.path.join(d, f)
         if not os.path.exists(p):
             open(p, 'w').write('// concrete playback tests are written here by the runner\n')
 
 
-def clear_playback(crate):
+def clear_playback(crate, srcfile=None):
     ensure_playback_files()
-    open(os.path.join(WORK, 'playback', PLAYBACK_FILE[crate]), 'w').write('// (empty)\n')
+    open(os.path.join(WORK, 'playback', playback_file(crate, srcfile)), 'w').write('// (empty)\n')
 
 
 BASE_FLAGS = ['-Z', 'stubbing', '-Z', 'function-contracts', '-Z', 'unstable-options']
 
 
-def run(crate, harnesses, jobs=8, harness_timeout=300, total_timeout=3600, repo=None, extra=None):
+def run(crate, harnesses, jobs=8, harness_timeout=300, total_timeout=3600, repo=None, extra=None, srcfiles=None):
     """harnesses: list of exact harness function names (module path `verif::` is added).
     returns {name: {status: ok|fail|timeout|oom|error|missing, failed_checks: [...], checks: n, covers: (sat,total), time_s}} , meta"""
     repo = repo or REPO
@@ -45,7 +68,7 @@ def run(crate, harnesses, jobs=8, harness_timeout=300, total_timeout=3600, repo=
     cmd = ['cargo', 'kani'] + BASE_FLAGS + ['--harness-timeout', '%ds' % harness_timeout,
                                               '--output-format', 'terse', '-j', str(jobs), '--exact']
     for h in harnesses:
-        cmd += ['--harness', 'verif::' + h]
+        cmd += ['--harness', modpath((srcfiles or {}).get(h)) + '::' + h]
     cmd += extra or []
     t0 = time.time()
     try:
@@ -148,12 +171,12 @@ def parse(out):
     return res
 
 
-def playback_test(crate, harness, harness_timeout=600, repo=None):
+def playback_test(crate, harness, harness_timeout=600, repo=None, srcfile=None):
     """re-run one failing harness with concrete playback; returns (test_text or None, raw output)"""
     repo = repo or REPO
     cmd = ['cargo', 'kani'] + BASE_FLAGS + ['-Z', 'concrete-playback', '--concrete-playback=print',
                                               '--harness-timeout', '%ds' % harness_timeout, '--exact',
-                                              '--harness', 'verif::' + harness]
+                                              '--harness', modpath(srcfile) + '::' + harness]
     try:
         p = subprocess.run(cmd, cwd=os.path.join(repo, CRATE_DIR[crate]), env=_env(), capture_output=True, text=True,
                            timeout=harness_timeout + 600)
@@ -165,11 +188,11 @@ def playback_test(crate, harness, harness_timeout=600, repo=None):
     return (m.group(1) if m else None), '\n'.join(detail)[-4000:]
 
 
-def native_replay(crate, test_text, repo=None, timeout=1200):
+def native_replay(crate, test_text, repo=None, timeout=1200, srcfile=None):
     """write the playback unit test into the guarded include file and run it natively against the real code"""
     repo = repo or REPO
     ensure_playback_files()
-    path = os.path.join(WORK, 'playback', PLAYBACK_FILE[crate])
+    path = os.path.join(WORK, 'playback', playback_file(crate, srcfile))
     open(path, 'w').write(test_text)
     cmd = ['cargo', 'kani', 'playback', '-Z', 'concrete-playback', '--', 'kani_concrete_playback']
     try:
@@ -178,7 +201,7 @@ def native_replay(crate, test_text, repo=None, timeout=1200):
     except subprocess.TimeoutExpired:
         out = 'native replay timed out'
     finally:
-        clear_playback(crate)
+        clear_playback(crate, srcfile)
     reproduced = bool(re.search(r'test result: FAILED', out)) and 'panicked at' in out
     m = re.search(r"panicked at ([^\n]*)\n([^\n]*)", out)
     return reproduced, (m.group(0) if m else out[-1500:])
